@@ -35,7 +35,11 @@ def apply_action_mask_discrete(
     :return: Logits with mask applied.
     :rtype: torch.Tensor
     """
-    return torch.where(mask, logits, torch.full_like(logits, -1e8).to(logits.device))
+    # NOTE: Use the most negative finite value (not -inf, which would turn a fully masked
+    # row into NaNs) so that a masked action can never outweigh an allowed one
+    return torch.where(
+        mask, logits, torch.full_like(logits, torch.finfo(logits.dtype).min)
+    )
 
 
 class DistributionHandler(Protocol):
